@@ -574,6 +574,88 @@ func TestVerifDaemon(t *testing.T) {
 		})
 	}
 
+	if prop == "C06" {
+		// A process frozen for longer than the minimum delay (SIGSTOP, VM pause,
+		// starvation): an RA that became due during the freeze and the overdue
+		// periodic RA must still be transmitted 3 s apart once it continues.
+		scen("frozen-with-ra-pending", func(id string, lg *rLog, p *probe) (string, string) {
+			cfg := "[[interfaces]]\nname = \"va\"\nadvertise = true\nmax_interval = \"4s\"\n  [[interfaces.prefix]]\n  prefix = \"2001:db8::/64\"\n"
+			d, err := startDaemon(lg, dir, cfg)
+			if err != nil {
+				return err.Error(), "inconclusive"
+			}
+			defer d.kill()
+			if _, ok := lg.waitFor(isRA, -1, 8*time.Second); !ok {
+				return "no RA within 8 s: " + lastLines(d.stderr.String(), 4), "inconclusive"
+			}
+			time.Sleep(8500 * time.Millisecond) // RAs at 0, 3, 6 s; the one planned for 9 s is pending
+			d.signal(syscall.SIGSTOP)
+			time.Sleep(9 * time.Second)
+			mark := len(lg.snapshot()) - 1
+			d.signal(syscall.SIGCONT)
+			time.Sleep(8 * time.Second)
+			var ts []time.Duration
+			for _, e := range lg.snapshot() {
+				if e.Seq > mark && e.Kind == "ra" && e.Dst == "ff02::1" {
+					ts = append(ts, e.T)
+				}
+			}
+			lg.add(rEvent{Kind: "note", Text: fmt.Sprintf("multicast RAs after SIGCONT at %v", ts)})
+			if len(ts) < 2 {
+				return fmt.Sprintf("only %d multicast RAs in the 8 s after SIGCONT", len(ts)), "inconclusive"
+			}
+			for i := 1; i < len(ts); i++ {
+				if gap := ts[i] - ts[i-1]; gap < 3*time.Second-150*time.Millisecond {
+					return fmt.Sprintf("after the process was frozen for 9 s, multicast RAs %d and %d were transmitted %v apart (< 3 s): %v", i-1, i, gap.Round(time.Microsecond), ts), "spacing-after-stall"
+				}
+			}
+			r.Count("stall_scenarios_ok", 1)
+			return "", ""
+		})
+	}
+
+	if prop == "C05" {
+		// A process frozen for longer than MaxRtrAdvInterval while nothing is
+		// pending: once it continues, the overdue unsolicited RA goes out and every
+		// later one still follows a full wait (a timer never fires early, so this
+		// lower bound also holds on a loaded machine).  max_interval = 6 s gives
+		// min_interval = 6 s; waits of 6 s keep the 3 s rate limit out of the picture.
+		scen("frozen-while-idle", func(id string, lg *rLog, p *probe) (string, string) {
+			cfg := "[[interfaces]]\nname = \"va\"\nadvertise = true\nmax_interval = \"6s\"\n  [[interfaces.prefix]]\n  prefix = \"2001:db8::/64\"\n"
+			d, err := startDaemon(lg, dir, cfg)
+			if err != nil {
+				return err.Error(), "inconclusive"
+			}
+			defer d.kill()
+			if _, ok := lg.waitFor(isRA, -1, 8*time.Second); !ok {
+				return "no RA within 8 s: " + lastLines(d.stderr.String(), 4), "inconclusive"
+			}
+			time.Sleep(13 * time.Second) // RAs at 0, 3 (first request, delayed), 6, 12 s
+			d.signal(syscall.SIGSTOP)
+			time.Sleep(8 * time.Second)
+			mark := len(lg.snapshot()) - 1
+			d.signal(syscall.SIGCONT)
+			time.Sleep(13500 * time.Millisecond)
+			var ts []time.Duration
+			for _, e := range lg.snapshot() {
+				if e.Seq > mark && e.Kind == "ra" && e.Dst == "ff02::1" {
+					ts = append(ts, e.T)
+				}
+			}
+			lg.add(rEvent{Kind: "note", Text: fmt.Sprintf("multicast RAs after SIGCONT at %v", ts)})
+			if len(ts) < 3 {
+				return fmt.Sprintf("only %d multicast RAs in the 13.5 s after SIGCONT", len(ts)), "inconclusive"
+			}
+			for i := 1; i < len(ts); i++ {
+				if gap := ts[i] - ts[i-1]; gap < 6*time.Second-150*time.Millisecond {
+					return fmt.Sprintf("after the process was frozen for 8 s, unsolicited RAs %d and %d are %v apart (MinRtrAdvInterval is 6 s): %v", i-1, i, gap.Round(time.Millisecond), ts), "wait-below-min-after-stall"
+				}
+			}
+			r.Count("stall_scenarios_ok", 1)
+			return "", ""
+		})
+	}
+
 	if prop == "C16" {
 		scen("deprecated-countdown", func(id string, lg *rLog, p *probe) (string, string) {
 			const valid, pref = 7 * time.Second, 4 * time.Second
